@@ -4,6 +4,7 @@
 package c06
 
 import (
+	"math"
 	"encoding/hex"
 	"fmt"
 	"math/big"
@@ -145,7 +146,8 @@ func (r *Rec) WriteByte(b byte) {
 }
 func (r *Rec) WriteUnary(n uint) { r.emit(ev.M{"k": "WriteUnary", "n": int(n)}, r.t.WriteUnary(n)) }
 func (r *Rec) WriteLimUint(v, n int) {
-	r.emit(ev.M{"k": "WriteLimUint", "v": strconv.Itoa(v), "n": n}, r.t.WriteLimUint(v, n))
+	// the bound as decimal text ("ns"): bounds beyond 2^31 are not TLC integers; the width of (#<= n) is the length of n in bits
+	r.emit(ev.M{"k": "WriteLimUint", "v": strconv.Itoa(v), "ns": strconv.Itoa(n)}, r.t.WriteLimUint(v, n))
 }
 func (r *Rec) WriteBitString(bits string) {
 	src := boc.NewBitString(len(bits))
@@ -264,7 +266,7 @@ func (r *Rec) ReadUnary() {
 }
 func (r *Rec) ReadLimUint(n int) {
 	v, err := r.t.ReadLimUint(n)
-	r.emit(ev.M{"k": "ReadLimUint", "n": n, "out": strconv.FormatUint(uint64(v), 10)}, err)
+	r.emit(ev.M{"k": "ReadLimUint", "ns": strconv.Itoa(n), "out": strconv.FormatUint(uint64(v), 10)}, err)
 }
 func (r *Rec) Skip(n int) { r.emit(ev.M{"k": "Skip", "n": n}, r.t.Skip(n)) }
 func (r *Rec) ResetCounter() {
@@ -282,7 +284,38 @@ func (r *Rec) AddRef() {
 	// a reference is named by the order it was added: the child holds that number
 	c := boc.NewCell()
 	_ = c.WriteUint(uint64(r.cell.RefsSize()+1), 8)
-	r.emit(ev.M{"k": "AddRef"}, r.cell.AddRef(c))
+	var err error
+	pan := ""
+	func() {
+		defer func() {
+			if p := recover(); p != nil {
+				pan = fmt.Sprint(p)
+			}
+		}()
+		err = r.cell.AddRef(c)
+	}()
+	if pan != "" {
+		r.W.Emit(ev.M{"k": "Panic", "op": "AddRef", "panic": pan})
+		return
+	}
+	r.emit(ev.M{"k": "AddRef"}, err)
+}
+
+// limBound: the bound n of a (#<= n) field: small ones, and the whole range of int (the width is the bit length of n: 32
+// bits at 2^32 - 1, 33 at 2^32, 63 at the largest int)
+func limBound(rng *rand.Rand) int {
+	switch rng.Intn(6) {
+	case 0:
+		e := uint(31 + rng.Intn(32))
+		b := []int{1<<e - 1, 1 << e, 1<<e + 1 + rng.Intn(1000), math.MaxInt64, math.MaxUint32, math.MaxUint32 + 1}
+		if e == 62 {
+			b[2] = 1<<62 + rng.Intn(1000)
+		}
+		return b[rng.Intn(len(b))]
+	case 1:
+		return int(rng.Int63())
+	}
+	return rng.Intn(1 << uint(rng.Intn(21)))
 }
 func refID(c *boc.Cell) int {
 	c.ResetCounters()
@@ -506,7 +539,7 @@ func Drive(w *ev.Writer, o Opts) {
 				r.ResetCounter()
 				r.Skip(off)
 			}
-			r.ReadLimUint(rng.Intn(1 << 20))
+			r.ReadLimUint(limBound(rng))
 			r.ResetCounter()
 			r.Skip(off)
 			r.ReadUnary()
@@ -649,10 +682,15 @@ func RandomOps(r *Rec, rng *rand.Rand, n int) {
 			ns := []uint{0, 1, 5, 62, 63, 64, 70}
 			r.WriteUnary(ns[rng.Intn(len(ns))])
 		case 10:
-			n := rng.Intn(1 << uint(rng.Intn(20)))
+			n := limBound(rng)
 			v := 0
-			if n > 0 {
-				v = rng.Intn(n + 1)
+			switch {
+			case n > 0 && rng.Intn(4) == 0:
+				v = n
+			case n > 0 && n < math.MaxInt64:
+				v = int(rng.Int63n(int64(n) + 1))
+			case n > 0:
+				v = int(rng.Int63())
 			}
 			r.WriteLimUint(v, n)
 		case 11:
@@ -678,7 +716,7 @@ func RandomOps(r *Rec, rng *rand.Rand, n int) {
 		case 23:
 			r.ReadUnary()
 		case 24:
-			r.ReadLimUint(rng.Intn(1 << uint(rng.Intn(20))))
+			r.ReadLimUint(limBound(rng))
 		case 25:
 			r.Skip(rng.Intn(12))
 		case 26:
